@@ -22,7 +22,8 @@ MANIFEST = {
             '(buckets[hash & (number_buckets-1)], head insertion, grow_hash; any hash function): after any insertion '
             'history with any number of growths the table holds every record exactly once (buckets_no_loss_no_dup), '
             'every record is reached by the find_entry chain walk for its own key (buckets_find_every_record) and the '
-            'walk equals the flat lookup (buckets_find_eq_lookup); placement invariant preserved by insert and grow.  '
+            'walk equals the flat lookup (buckets_find_eq_lookup); placement invariant preserved by insert, grow and unlink, '
+            'so after any insert/unlink history every remaining record is reachable (buckets_history_reachable).  '
             'The model is tied to the C by a differential '
             'engine that drives the real resolver (ASan/UBSan/LSan) and the model on the same op streams, incl. >4000 '
             'live groups to cross grow_hash twice.',
